@@ -176,6 +176,8 @@ c16!(c16_std10_read_any12, 16, read_instr_never_panics::<12>(&StdHooks10, 0, 0, 
 //@ C16 c16_std06_read_any20 quick default STD (TH06-09): read_instr on 20 ARBITRARY bytes (size field symbolic too: every value, including sizes beyond the buffer, which end in an end-of-file error) returns Ok or Err and never panics
 c16!(c16_std06_read_any20, 24, read_instr_never_panics::<20>(&StdHooks06, 0, 0, 0));
 
+// (read_object - a loop of read_quad over arbitrary bytes - was tried for C16: no verdict in 600 s)
+
 #[cfg(kani)]
 #[path = "/verif/.cache/playback/std.rs"]
 mod playback;
